@@ -122,10 +122,16 @@ def prove_take(src_root, ex: Explorer, slack: int, suffix: str):
         state = {}
 
         def loop_spec(it2, node, env):
+            # one iteration of the polling loop, whatever its form: `while True:` with the grant inside, or `while <bucket is empty>:` with
+            # the grant after the loop.  The guard is evaluated (it may be the refill itself); a false guard leaves the loop.
+            if not it2.decide(it2.eval(node.test, env)):
+                return
             try:
                 it2.exec_block(node.body, env)
             except ContinueEx:
                 pass
+            except BreakEx:
+                return
             state['iterated'] = True
             raise ReturnEx('<next-iteration>')
         it.loop_specs[(f'{RL}:LimitedRateLimiter.take_tokens', 0)] = loop_spec
